@@ -118,30 +118,31 @@ def limiting_calls(t):
     return [c[1][1] for c in calls_in(t) if c[1][1] in LIMITING]
 
 
+def covers(t, path):
+    """t is built from the whole of arg1.<path> (constructor by constructor)"""
+    if t[0] == "agg" and t[1] in ("Option::Some", "Result::Ok", "Result::Err") and len(t[2]) == 1:
+        v = t[1].split("::")[1]
+        # either the argument's own Some/Ok/Err payload is mapped, or the variant is just the
+        # representation chosen for the result (ReadSlice(Err(owned.as_slice())))
+        return covers(t[2][0], tuple(path) + ("v:" + v, "f:0")) or covers(t[2][0], path)
+    if t[0] == "agg" and t[1] == "tuple" and t[2]:
+        return all(covers(op, tuple(path) + ("f:%d" % i,)) for i, op in enumerate(t[2]))
+    if t[0] == "agg" and not t[1].startswith("closure:"):
+        return all(covers(op, path) for op in t[2]) if t[2] else True
+    if limiting_calls(t):
+        return False
+    return leaves_ok(t, ("arg", 1), path)
+
+
 def whole_value(ctx, b, R, rule, what, arity):
-    """the returned value is built from the whole argument (tuple: i-th component from the i-th
-    field), without limiting adaptors"""
-    forms = [tree(ctx, o) for o in ctx.org.local(0)]
-    ok = bool(forms)
-    why = []
-    for t in forms:
-        if arity and t[0] == "agg" and t[1] == "tuple" and len(t[2]) == arity:
-            for i, op in enumerate(t[2]):
-                if not leaves_ok(op, ("arg", 1), ("f:%d" % i,)):
-                    ok = False
-                    why.append("component %d built from %s" % (i, show(op)[:80]))
-                if limiting_calls(op):
-                    ok = False
-                    why.append("component %d limited by %s" % (i, limiting_calls(op)))
-        else:
-            if not leaves_ok(t, ("arg", 1), ()):
-                ok = False
-                why.append("built from %s" % show(t)[:100])
-            if limiting_calls(t):
-                ok = False
-                why.append("limited by %s" % limiting_calls(t))
-    R.check(rule, b.label(), ok, construct=what, where=b.where(),
-            detail="; ".join(why) or "result = %s" % "; ".join(show(t)[:90] for t in forms))
+    """every semantic alternative of the result is built from the whole argument: Some/Ok/Err from
+    the matching payload, the i-th tuple component from the i-th field, no limiting adaptor"""
+    from expr import ret_alts, nobb, NONE
+    forms = [nobb(t) for t in ret_alts(ctx) if t != NONE]
+    bad = [show(t)[:100] for t in forms if not covers(t, ())]
+    R.check(rule, b.label(), bool(forms) and not bad, construct=what, where=b.where(),
+            detail=("not built from the whole value: %s" % bad) if bad else
+            "result = %s" % "; ".join(show(t)[:90] for t in forms))
 
 
 def r_owned_conversions(F, R):
@@ -157,24 +158,21 @@ def r_owned_conversions(F, R):
     R.floor("R-WHOLE", "into_owned/borrow_as impls", n, 40)
 
 
-def is_reborrow(t, key, path):
+def is_reborrow(t, path):
     if t[0] == "place":
         return t[2] == ("arg", 1) and tuple(t[3]) == tuple(path)
-    if t[0] == "call":
-        tag = t[1]
-        if tag == ("Region", "reborrow") and len(t[2]) == 1:
-            return is_reborrow(t[2][0], key, path)
-        if tag in (("Option", "map"), ("Result", "map"), ("Result", "map_err")) and len(t[2]) == 2:
-            f = t[2][1]
-            return is_reborrow(t[2][0], key, path) and f[0] == "const" and "reborrow" in f[1]
+    if t[0] == "call" and t[1] == ("Region", "reborrow") and len(t[2]) == 1:
+        return is_reborrow(t[2][0], path)
+    if t[0] == "agg" and t[1] in ("Option::Some", "Result::Ok", "Result::Err") and len(t[2]) == 1:
+        v = t[1].split("::")[1]
+        return is_reborrow(t[2][0], tuple(path) + ("v:" + v, "f:0"))
     if t[0] == "agg" and t[1] == "tuple":
-        return all(is_reborrow(op, key, tuple(path) + ("f:%d" % i,)) for i, op in enumerate(t[2]))
-    if t[0] == "phi":
-        return all(is_reborrow(x, key, path) for x in t[1])
+        return all(is_reborrow(op, tuple(path) + ("f:%d" % i,)) for i, op in enumerate(t[2]))
     return False
 
 
 def r_reborrow(F, R):
+    from expr import ret_alts, nobb, NONE
     n = 0
     for b in F.methods_of_trait("Region", "reborrow"):
         if b.in_tests():
@@ -182,8 +180,8 @@ def r_reborrow(F, R):
         n += 1
         R.saw(b)
         ctx = Ctx(b)
-        forms = [tree(ctx, o) for o in ctx.org.local(0)]
-        ok = bool(forms) and all(is_reborrow(t, b.key, ()) for t in forms)
+        forms = [nobb(t) for t in ret_alts(ctx) if t != NONE]
+        ok = bool(forms) and all(is_reborrow(t, ()) for t in forms)
         R.check("R-REBORROW", b.label(), ok, construct="reborrow is the identity (composed of children's reborrow)",
                 where=b.where(), detail="returns %s" % "; ".join(show(t)[:100] for t in forms))
     R.floor("R-REBORROW", "reborrow impls", n, 12)
@@ -229,3 +227,49 @@ def r_onto_nopanic(F, R, cat=None):
                 where=sites[0][0].where() if sites else b.where(),
                 detail="; ".join("%s indexed by %s" % (r, t) for (_, t, r) in sites) or "none")
     R.floor("R-ONTO", "clone_onto impls scanned for target-length-dependent panics", n, 20)
+
+
+def r_zip_byref(F, R, cat=None):
+    """`it.by_ref().zip(other)` polls `it` first: when `other` runs out, one element of `it` has
+    already been taken and is lost for whatever consumes `it` afterwards.  Flag a zip whose *left*
+    operand is a by_ref of an iterator that is used again later."""
+    from core import all_ctxs
+    from expr import operand_tree
+    n = 0
+    for top in F.bodies.values():
+        if top.kind not in ("AssocFn", "Fn") or top.in_tests() or top.derived:
+            continue
+        if top.name not in ("clone_onto", "into_owned", "push", "extend", "clone_from"):
+            continue
+        for ctx in all_ctxs(F, top):
+            b = ctx.body
+            for (bi, t) in b.calls():
+                if callee_tag(t.get("callee")) != ("Iterator", "zip") or len(t["args"]) != 2:
+                    continue
+                n += 1
+                left = operand_tree(ctx, t["args"][0])
+                by = None
+                if left[0] == "call" and left[1] == ("Iterator", "by_ref") and left[2]:
+                    by = left[2][0]
+                if by is None:
+                    continue
+                # is the underlying iterator used again after the zip?
+                later = False
+                for (qbi, qt) in b.calls():
+                    if qbi == bi or qbi not in _reach(b, bi):
+                        continue
+                    for a in qt["args"]:
+                        at = operand_tree(ctx, a)
+                        if at == by or (at[0] == "call" and at[2] and at[2][0] == by and at[1] != ("Iterator", "by_ref")):
+                            later = True
+                R.saw(top)
+                R.check("R-ZIP", top.label(), not later,
+                        construct="by_ref() iterator on the left of zip and consumed again afterwards",
+                        where="%s:%s" % (b.file, t["line"]),
+                        detail="zip polls its left side first: when the right side ends one element of %s is lost" % show(by)[:60])
+    R.extra["zip_sites_inspected"] = n
+
+
+def _reach(b, bi):
+    from expr import reach_strict
+    return reach_strict(b, bi)
